@@ -122,10 +122,14 @@ def features(tokens):
             f.add("array")
             if nxt == "]":
                 f.add("len_open")
-            elif nxt == "K":
+            elif nxt in ("K", "Z"):
                 f.add("len_define")
-            elif nxt == "E1":
+                if nxt == "Z":
+                    f.add("len_named_zero")
+            elif nxt in ("E1", "E0"):
                 f.add("len_enumerator")
+                if nxt == "E0":
+                    f.add("len_named_zero")
             elif nxt in G.QUALS:
                 f.add("qual_inside_brackets")
             elif nxt is not None and nxt.startswith("0x"):
